@@ -18,6 +18,9 @@ struct VCase {
     /// 0: the type itself, 1: derived type without own block, 2: derived type repeating the block + one function
     inherit: usize,
     exec: bool,
+    /// 0: index is the only attribute; 1..=4: every function also carries a doc line and the (default)
+    /// convention "thiscall", written in attribute arrangement `arr - 1` (see spec::Printer::attr_order)
+    arr: u8,
 }
 
 /// Slot assignment per the statement; None = contradictory description.
@@ -82,6 +85,10 @@ fn funcs_of(c: &VCase) -> Vec<FuncS> {
             let names: [&str; 2] = if c.sig % 3 == 0 { ["f", "f_"] } else if c.sig % 3 == 1 { ["f_", "f"] } else { ["a0", "a1"] };
             f.args = args.iter().enumerate().map(|(k, a)| (names[k].to_string(), aty_mty(a))).collect();
             f.ret = ret_mty(ret);
+            if c.arr > 0 {
+                f.cc = Some("thiscall".into());
+                f.doc = vec![format!(" function {i}")];
+            }
             f
         })
         .collect()
@@ -125,7 +132,7 @@ fn cases(tier: &str) -> Vec<VCase> {
                 None => vec![None, Some(8)],
             };
             for size in sizes {
-                out.push(VCase { idx: idxv.clone(), size, sig: 0, inherit: 0, exec: false });
+                out.push(VCase { idx: idxv.clone(), size, sig: 0, inherit: 0, exec: false, arr: 0 });
             }
         }
     }
@@ -134,7 +141,7 @@ fn cases(tier: &str) -> Vec<VCase> {
         let ch4: Vec<Option<i128>> = vec![None, Some(0), Some(3), Some(5)];
         for idx in 0..ch4.len().pow(4) {
             let d = util::decode(idx, &[4; 4]);
-            out.push(VCase { idx: d.iter().map(|i| ch4[*i]).collect(), size: None, sig: 0, inherit: 0, exec: false });
+            out.push(VCase { idx: d.iter().map(|i| ch4[*i]).collect(), size: None, sig: 0, inherit: 0, exec: false, arr: 0 });
         }
     }
     // execution part
@@ -148,14 +155,31 @@ fn cases(tier: &str) -> Vec<VCase> {
             for size in [None, Some(len as i128 + 2)] {
                 for inherit in 0..3 {
                     sig += 1;
-                    out.push(VCase { idx: idxv.clone(), size, sig, inherit, exec: true });
+                    out.push(VCase { idx: idxv.clone(), size, sig, inherit, exec: true, arr: 0 });
                 }
             }
         }
     }
+    // the index next to other attributes of the same function, in every arrangement
+    for arr in 1..=4u8 {
+        for nf in 1..=3usize {
+            for idx in 0..chx.len().pow(nf as u32) {
+                let d = util::decode(idx, &vec![chx.len(); nf]);
+                let idxv: Vec<Option<i128>> = d.iter().map(|i| chx[*i]).collect();
+                let natural = slots(&idxv, None).map(|(_, l)| l as i128);
+                for size in [None, natural.map(|l| l + 2), natural.map(|l| l - 1)] {
+                    if natural.is_some() && size.is_none() && nf == 3 && idx % 4 != 0 {
+                        continue;
+                    }
+                    out.push(VCase { idx: idxv.clone(), size, sig: idx, inherit: 0, exec: false, arr });
+                }
+            }
+        }
+        out.push(VCase { idx: vec![None, Some(2), None, Some(6)], size: Some(9), sig: arr as usize, inherit: arr as usize % 3, exec: true, arr });
+    }
     // four functions with arguments, all signature selectors
     for sig in 0..20 {
-        out.push(VCase { idx: vec![None, Some(2), None, Some(6)], size: Some(9), sig, inherit: sig % 3, exec: true });
+        out.push(VCase { idx: vec![None, Some(2), None, Some(6)], size: Some(9), sig, inherit: sig % 3, exec: true, arr: 0 });
     }
     out
 }
@@ -248,7 +272,7 @@ fn judge_exec(c: &VCase, sl: &[u64], len: u64, recs: &[Record]) -> Option<(Strin
 pub fn run(tier: &str, only: Option<&Value>) -> i32 {
     let mut rep = Report::new("C04", tier);
     let all = cases(tier);
-    rep.rule = "E1 over vftable-owning types: every assignment of {no index, #[index(0..6)]} to up to 3 functions (4 thorough; 4 over a reduced alphabet in quick) x declared table size in {none, natural, natural+2, natural-1} (contradictions must be rejected); for accepted cases rustc asserts offset_of!(TVftable, v_i) == slot_i * ps and size_of::<TVftable>() == len * ps on both widths and syn counts the placeholder slots; execution part: index patterns over {none,0,2,5} for up to 3 functions (and a 4-function table) x receivers x 0..2 arguments x 4 return types, on the type itself, on a derived type inheriting the table and on a derived type extending it: two objects with two different fake tables, every wrapper executed: exactly one call, into the slot of *that* object's table, receiver = object, arguments in order, result returned. distinct = distinct (index pattern, size, signature selector, inheritance form)".into();
+    rep.rule = "E1 over vftable-owning types: every assignment of {no index, #[index(0..6)]} to up to 3 functions (4 thorough; 4 over a reduced alphabet in quick) x declared table size in {none, natural, natural+2, natural-1} (contradictions must be rejected), and index patterns over {none,0,2,5} with a doc line and an explicit (default) convention on every function in four attribute arrangements (one bracket / one per attribute, index first / last); for accepted cases rustc asserts offset_of!(TVftable, v_i) == slot_i * ps and size_of::<TVftable>() == len * ps on both widths and syn counts the placeholder slots; execution part: index patterns over {none,0,2,5} for up to 3 functions (and a 4-function table) x receivers x 0..2 arguments x 4 return types, on the type itself, on a derived type inheriting the table and on a derived type extending it: two objects with two different fake tables, every wrapper executed: exactly one call, into the slot of *that* object's table, receiver = object, arguments in order, result returned. distinct = distinct (index pattern, size, signature selector, inheritance form)".into();
     rep.assumptions = vec!["a first base that carries the vftable pointer sits at offset 0 (as the statement assumes)".into(), "SysV x86-64 extern \"C\" for the recording stubs".into()];
     let only_i = only.map(|l| (l["index"].as_u64().unwrap_or(0) as usize, l["ps"].as_u64().unwrap_or(8) as usize));
     let idxs: Vec<usize> = match only_i {
@@ -264,7 +288,7 @@ pub fn run(tier: &str, only: Option<&Value>) -> i32 {
         }
         let outs = util::par_map(idxs.len(), |j, _| {
             let c = &all[idxs[j]];
-            let input = to_input(&[module_of(c)]);
+            let input = if c.arr > 0 { to_input_arranged(&[module_of(c)], c.arr - 1) } else { to_input(&[module_of(c)]) };
             let v = pipe::run(&input, ps);
             (input, v)
         });
@@ -277,7 +301,7 @@ pub fn run(tier: &str, only: Option<&Value>) -> i32 {
             rep.traces += 1;
             rep.evaluations += 1;
             rep.transitions += c.idx.len() as u64 + 1;
-            rep.distinct_str(&format!("{:?}{:?}{}{}", c.idx, c.size, c.sig, c.inherit));
+            rep.distinct_str(&format!("{:?}{:?}{}{}{}", c.idx, c.size, c.sig, c.inherit, c.arr));
             let model = slots(&c.idx, c.size);
             let loc = json!({"space": "vftables", "index": i, "ps": ps});
             let mut fail = |key: String, detail: String, rep: &mut Report| rep.violation(Violation { key, features: vec![], input: input.clone(), ps, detail, locator: loc.clone() });
